@@ -51,6 +51,14 @@ def tree_hash():
     return hashlib.sha256((src_hash() + rust_hash()).encode()).hexdigest()[:16]
 
 
+def harness_exit(msg):
+    """Harness failures leave with status 2 (never 0, never the VIOLATION status 1)."""
+    sys.stderr.write(str(msg) + "\n")
+    sys.stderr.flush()
+    sys.stdout.flush()
+    os._exit(2) if os.environ.get("VERIF_HARD_EXIT") == "1" else sys.exit(2)
+
+
 class _Flock:
     def __init__(self, path):
         self.path = path
@@ -93,7 +101,7 @@ def ensure_native(verbose=False):
         r = subprocess.run(cmd, env=env, capture_output=True, text=True, timeout=900)
         if r.returncode != 0:
             sys.stderr.write(r.stdout[-4000:] + r.stderr[-8000:])
-            raise SystemExit("HARNESS: native build of /repo/rust failed")
+            harness_exit("HARNESS: native build of /repo/rust failed")
         built = os.path.join(CACHE, "rust-target", "release", "libbasilisp_native.so")
         os.makedirs(os.path.dirname(so), exist_ok=True)
         tmp = so + ".tmp%d" % os.getpid()
@@ -134,9 +142,37 @@ def controlled_env(hashseed=0, extra=None):
     return env
 
 
+def _preloaded_basilisp():
+    return any(m == "basilisp" or m.startswith("basilisp.") for m in list(sys.modules))
+
+
+def guard_clean_start():
+    """basilisp must not be imported from /repo's prebuilt extension when a check starts.
+
+    The repository's test suite (importer_test) and `basilisp bootstrap` drop a
+    `basilispbootstrap*.pth` into site-packages which imports and initialises basilisp - and
+    with it whatever `_lang.abi3.so` lies in the source tree - at every interpreter start
+    while the file exists.  If that happened to this process, forget that copy completely
+    (modules and import hook) so that boot_basilisp() side-loads the extension built from the
+    current /repo/rust and initialises a fresh runtime."""
+    if not _preloaded_basilisp():
+        return
+    sys.meta_path[:] = [f for f in sys.meta_path if not type(f).__module__.startswith("basilisp")]
+    doomed = [m for m, mod in list(sys.modules.items())
+              if m == "basilisp" or m.startswith("basilisp.")
+              or type(getattr(mod, "__loader__", None)).__module__.startswith("basilisp")]
+    for m in doomed:
+        sys.modules.pop(m, None)
+    import importlib
+    importlib.invalidate_caches()
+    if _preloaded_basilisp():
+        harness_exit("HARNESS: could not unload a basilisp that was imported at interpreter start-up")
+
+
 def ensure_env(hashseed=0):
     """Re-exec the current command under the controlled environment if needed."""
     if os.environ.get("VERIF_ENV_OK") == "1" and os.environ.get("PYTHONHASHSEED") == str(hashseed):
+        guard_clean_start()
         return
     env = controlled_env(hashseed)
     os.execve(PY, [PY] + sys.argv, env)
@@ -148,7 +184,7 @@ def sideload_native():
     if "basilisp._lang" in sys.modules:
         mod = sys.modules["basilisp._lang"]
         if getattr(mod, "__file__", None) != so:
-            raise SystemExit("HARNESS: basilisp._lang already imported from " + str(mod.__file__))
+            harness_exit("HARNESS: basilisp._lang already imported from " + str(mod.__file__))
         return mod
     loader = importlib.machinery.ExtensionFileLoader("basilisp._lang", so)
     spec = importlib.util.spec_from_file_location("basilisp._lang", so, loader=loader)
@@ -210,6 +246,7 @@ def boot_basilisp():
     global _BOOTED
     if _BOOTED:
         return
+    guard_clean_start()
     install_arena()
     sideload_native()
     import importlib
@@ -245,7 +282,7 @@ def ensure_warm(verbose=False):
                            text=True, timeout=900)
         if r.returncode != 0:
             sys.stderr.write(r.stdout[-4000:] + r.stderr[-8000:])
-            raise SystemExit("HARNESS: warm-up of bundled namespaces failed")
+            harness_exit("HARNESS: warm-up of bundled namespaces failed")
         os.makedirs(os.path.dirname(marker), exist_ok=True)
         with open(marker, "w") as f:
             f.write(str(time.time()))
